@@ -118,6 +118,30 @@ theorem all_congr_mem {α} (l : List α) (f g : α → Bool) (h : ∀ x ∈ l, f
     simp only [List.all_cons]
     rw [h x (by simp), ih (fun y hy => h y (by simp [hy]))]
 
+theorem ite_false_left (c r : Bool) : (if c = true then false else r) = (!c && r) := by cases c <;> rfl
+
+theorem securitySchemeViols_all (o : Opts) (d : Doc) :
+    ((securitySchemeViols d).all fun v => !enabled o v) = securitySchemeShapeOK d := by
+  unfold securitySchemeViols securitySchemeShapeOK
+  simp (disch := decide) only [List.all_append, all_when, enabled_plain, ite_false_left]
+  simp [Bool.and_assoc]
+
+theorem oauthFlowViols_all (o : Opts) (d : Doc) :
+    ((oauthFlowViols d).all fun v => !enabled o v) = oauthFlowShapeOK d := by
+  unfold oauthFlowViols oauthFlowShapeOK
+  simp (disch := decide) only [List.all_append, all_when, enabled_plain, ite_false_left]
+  generalize (decide (d.attrs.str "flowType" = "implicit") || decide (d.attrs.str "flowType" = "authorizationCode")) = A
+  generalize (decide (d.attrs.str "flowType" = "password") || decide (d.attrs.str "flowType" = "clientCredentials") ||
+    decide (d.attrs.str "flowType" = "authorizationCode")) = B
+  by_cases h1 : d.attrs.str "authorizationUrl" = "" <;> by_cases h2 : d.attrs.str "tokenUrl" = "" <;>
+    cases A <;> cases B <;> cases d.attrs.flag "hasScopes" <;> simp [h1, h2]
+
+theorem serverViols_all (o : Opts) (d : Doc) :
+    ((serverViols d).all fun v => !enabled o v) = serverShapeOK d := by
+  unfold serverViols serverShapeOK
+  simp (disch := decide) only [List.all_append, all_when, enabled_plain, ite_false_left]
+  simp [Bool.and_assoc]
+
 /-- kinds whose local checks are a plain cascade ending in `validateExtensions` -/
 def plainExtKinds : List Kind :=
   [.root, .info, .contact, .license, .pathItem, .operation, .requestBody, .responses, .response, .example, .link,
@@ -134,7 +158,8 @@ theorem localOK_plainExt (T : Table) (o : Opts) (k : Kind) (a : Attrs) (kids : L
   all_goals
     (have hx' := hx (by simp [extKinds])
      simp (disch := decide) only [localOK, rulesOK, violations, Doc.kind, Doc.attrs, List.all_append, all_when, extra_all, hx',
-       enabled_plain, securitySchemeOKCode, oauthFlowOKCode, serverOKCode]
+       enabled_plain, securitySchemeOKCode, oauthFlowOKCode, serverOKCode, securitySchemeViols_all, oauthFlowViols_all,
+       serverViols_all]
      try ((repeat' split) <;> simp_all <;> grind))
 
 /-- kinds without local checks -/
